@@ -27,7 +27,7 @@ def parsePairs (s : String) : List (String × Bool) :=
 
 def laspStep (t : Tokens) (impl : Option String) : StepOut :=
   match tokStr t 1 with
-  | "connect" =>
+  | "connect" | "pconnect" =>
     let token := kvGet t "token" == some "1"
     let ap := parseAgentMap ((kvGet t "ap").getD "-")
     let pre := parseCollMap ((kvGet t "pre").getD "-")
